@@ -8,6 +8,7 @@ case kinds (judged by the oracle and compared with the model unless noted):
   hexrt      HEX2DEC(DEC2HEX(n))          hexout     HEX2DEC/DEC2HEX outside the 40-bit range: an error
   basert     DECIMAL(BASE(n,r),r) (budgeted)         baseguard  BASE with radix outside 2..36 / negative number: an error
   roman      ROMAN(n, 0..4) and ARABIC(ROMAN(n)) (budgeted)       complex    IMREAL/IMAGINARY(COMPLEX(a,b))
+             (key `fl`: the number is handed over as the equal float, written n.0 in the model's formulas)
   formula    fixed formula text with the expected value or error, through Parser.parse (budgeted)
   hex, base, arabic, misc   model correspondence only (the oracle is silent); misc does not count as non-trivial
 a budgeted call that does not return fails the oracle in every kind (the correspondence-only ones too)
@@ -35,7 +36,8 @@ RULE = ('seeded counts are quick / thorough (one number: both tiers) and are mul
         '10^-digits, the ints next to them, eighths); cf: CEILING/FLOOR (2000 / 15000 each; the .MATH and .PRECISE names '
         '1/5 each; 8% one-argument) on the same numbers x significance (80% one of 30 fixed ints / dyadic / decimal '
         'values of either sign, 18% a seeded number, 2% 0); unary: INT/EVEN/ODD/SIGN on 24 fixed values (-6..6, 0.0, '
-        '+-0.5, +-1e-9, +-3.999, ...) and 800 / 6000 seeded numbers each; div: QUOTIENT/MOD on a 10 x 11 grid of all sign '
+        '+-0.5, +-1e-9, +-3.999, ...), on 10 Python ints beyond 2^53 (+-(2^53+1), +-12345678901234567, 10^20+1, -(10^20)-3, 10^30+7, '
+        '2^64-1 and a seeded odd int of 2^53..2^63 of either sign, drawn per function: judged in exact integer arithmetic like any other int, so a detour through a double shows) and 800 / 6000 seeded numbers each; div: QUOTIENT/MOD on a 10 x 11 grid of all sign '
         'combinations incl. divisors 0 and 0.0 and 1500 / 12000 seeded pairs each (3% divisor 0); fact: FACT on 0..175, '
         'FACTDOUBLE on 0..175 and 290..306 (both range ends: 170!/171, 300!!/301), 34 fixed arguments each (fractions '
         'next to the ends: 170.5, 170.9, 300.9, ...; negatives; huge ones 10^6 .. 10^30, 1e300, 1.5e308, 2^1024, which '
@@ -58,7 +60,9 @@ RULE = ('seeded counts are quick / thorough (one number: both tiers) and are mul
         'seeded with bit lengths 1..39 until the count is reached); baseguard: BASE on 9 fixed pairs, 250 / 2000 radices '
         'outside 2..36 (14 values -10^6..10^6 incl. 0, 1, 37, 1.5, 0.5, 36.5, 1.999) x +-n below 10^6 (30% negative), 150 '
         '/ 1000 negative n above -10^9 with a radix in 2..36.  roman: ROMAN(n,form) for ALL 1..3999 x forms 0..4 (complete) with '
-        'ARABIC(ROMAN(n)).  complex: IMREAL/IMAGINARY(COMPLEX(a,b)) on a 9 x 6 grid of ints (0, +-1, .., +-(2^53-1)) and '
+        'ARABIC(ROMAN(n)); the same six calls once more with n handed over as the equal FLOAT (key fl: float(n) in the direct calls, '
+        'n.0 in the formulas sent to the model) for every 37th n (1, 38, .., 3997: 109), the 8 fixed 1, 4, 9, 49, 499, 1994, 3888, '
+        '3999 and 60 x scale seeded n, duplicates dropped (about 174 numbers at scale 1): same oracle (every form denotes n, ARABIC gives the int n back).  complex: IMREAL/IMAGINARY(COMPLEX(a,b)) on a 9 x 6 grid of ints (0, +-1, .., +-(2^53-1)) and '
         '400 / 3000 seeded pairs below 10^1..10^14 in magnitude.  formula: 86 fixed formulas with expected value or error '
         '(the statement\'s named behaviours, the repaired defects, the range ends of FACT/FACTDOUBLE, far-away digits up '
         'to 10^15), through Parser.parse.  Correspondence only (oracle silent): hex (HEX2DEC on 400 / 3000 seeded hex '
@@ -98,7 +102,9 @@ RULE = ('seeded counts are quick / thorough (one number: both tiers) and are mul
         '0 and calls that did not return.')
 TRUSTED = ['Python float arithmetic is modelled by exact rational arithmetic (results compared within 4 ulp; where an argument '
            'is a float and the scaled value within 2^-48 (relative) of an integer, ROUNDUP/ROUNDDOWN/CEILING/FLOOR/QUOTIENT '
-           'may land one unit from the model\'s result, MOD within 8 ulp of it or one divisor away); float OVERFLOW is not '
+           'may land one unit from the model\'s result, MOD within 8 ulp of it or one divisor away; for ROUNDUP/ROUNDDOWN this excuse '
+           '(noise_excuse) is granted only when digits is an int (not a logical) with |digits| <= 400: further out there is no noise to '
+           'excuse and 10^digits is not formed); float OVERFLOW is not '
            'modelled: ROUNDUP/ROUNDDOWN of a float whose scaled magnitude |x|*10^digits exceeds the double range raise in the '
            'code (#ERROR!), and so does EVERY float (0.0 too) with an int digits in 309..1074 or -1024..-309 (10**|digits| '
            'does not convert to a float); ROUNDUP of a number whose quotient by 10^-digits underflows to 0.0 returns 0; ints '
@@ -166,6 +172,9 @@ ASSUMPTIONS = ['a float argument is judged by the exact value of the double (TRU
                'ARABIC(ROMAN(n, form)) = n is demanded for the classic form 0 only (form omitted); every form 0..4 must denote '
                'n under the additive/subtractive reading (a symbol before a larger one is subtracted) - how concise a form is '
                'is not judged',
+               'a whole number 1..3999 that arrives as a float (the result of a division or of ROUND, a host float) is that '
+               'number for ROMAN: the same numerals as for the int; a Python int beyond 2^53 is an exact number for '
+               'INT/EVEN/ODD/SIGN (judged like every other int argument, no tolerance)',
                'COMPLEX parts are judged for |a|,|b| < 2^53 (a complex number stores doubles); IMREAL/IMAGINARY must return '
                'them as ints',
                'DECIMAL(BASE(n,r),r) = n is demanded for n < 2^39 (DECIMAL applies the 40-bit two\'s-complement adjustment '
